@@ -5,6 +5,7 @@ import (
 	keytypes "github.com/ExocoreNetwork/exocore/types/keys"
 	"github.com/ExocoreNetwork/exocore/x/operator/types"
 	abci "github.com/cometbft/cometbft/abci/types"
+	"github.com/cosmos/cosmos-sdk/store/prefix"
 	sdk "github.com/cosmos/cosmos-sdk/types"
 )
 
@@ -14,8 +15,18 @@ func (k Keeper) InitGenesis(ctx sdk.Context, state types.GenesisState) []abci.Va
 		if op.OperatorInfo.EarningsAddr == "" {
 			op.OperatorInfo.EarningsAddr = op.OperatorAddress
 		}
+		// SetOperatorInfo stamps the commission with the current block time, which is right for a
+		// registration but not for an exported operator: keep the exported time when there is one.
+		updateTime := op.OperatorInfo.Commission.UpdateTime
 		if err := k.SetOperatorInfo(ctx, op.OperatorAddress, &op.OperatorInfo); err != nil {
 			panic(errorsmod.Wrap(err, "failed to set operator info"))
+		}
+		if !updateTime.IsZero() {
+			op.OperatorInfo.Commission.UpdateTime = updateTime
+			// #nosec G703 // already validated
+			operatorAddr, _ := sdk.AccAddressFromBech32(op.OperatorAddress)
+			store := prefix.NewStore(ctx.KVStore(k.storeKey), types.KeyPrefixOperatorInfo)
+			store.Set(operatorAddr, k.cdc.MustMarshal(&op.OperatorInfo))
 		}
 	}
 	for _, record := range state.OperatorRecords {
